@@ -2110,3 +2110,20 @@ V(id='c14-div-zero-lower-nan-unmapped', prop='C14', file='mpmath/libmp/libmpi.py
 V(id='c14-add-nan-unmapped', prop='C14', file='mpmath/libmp/libmpi.py',
   old="    a = mpf_add(sa, ta, prec, round_floor)\n    b = mpf_add(sb, tb, prec, round_ceiling)\n    if a == fnan: a = fninf\n",
   new="    a = mpf_add(sa, ta, prec, round_floor)\n    b = mpf_add(sb, tb, prec, round_ceiling)\n", expect='fire:C-R16:mpi_add')
+
+# ---- C04 P-R1 (fixes f859abe, b211f9a): z**n takes the exact integer path up to 10^4 bits ----
+V(id='c04-pow-axis-to-mpf-pow-int', prop='C04', file='mpmath/libmp/libmpc.py',
+  old="        return mpf_pow_int_exact(a, n, prec, rnd), fzero", new="        return mpf_pow_int(a, n, prec, rnd), fzero",
+  expect='fire:P-R1:mpc_pow_int')
+V(id='c04-pow-axis-negated-same-direction', prop='C04', file='mpmath/libmp/libmpc.py',
+  old="            v = mpf_neg(mpf_pow_int_exact(b, n, prec, negative_rnd[rnd]))", new="            v = mpf_neg(mpf_pow_int_exact(b, n, prec, rnd))",
+  expect='fire:P-R1:mpc_pow_int')
+V(id='c04-pow-gate-at-twice-the-bits', prop='C04', file='mpmath/libmp/libmpc.py',
+  old="    if exact_size < 24000:", new="    if exact_size < 20000:", expect='fire:P-R1:mpc_pow_int')
+V(id='c04-pow-axis-helper-small-gate', prop='C04', file='mpmath/libmp/libmpc.py',
+  old="    if man and n > 0 and bc*n < 20000:", new="    if man and n > 0 and bc*n < 1000:", expect='fire:P-R1:mpf_pow_int_exact')
+V(id='c04-pow-exact-component-extra-rounding', prop='C04', file='mpmath/libmp/libmpc.py',
+  old="        re = from_man_exp(re, int(n*aexp), prec, rnd)", new="        re = from_man_exp(re, int(n*aexp), prec+4, rnd)",
+  expect='fire:P-R1:mpc_pow_int')
+V(id='c04-benign-pow-gate-larger', prop='C04', file='mpmath/libmp/libmpc.py',
+  old="    if exact_size < 24000:", new="    if exact_size <= 30000:", expect='silent')
